@@ -432,10 +432,23 @@ def extract_c(cc, hh):
     _need(len(keep) == 1, "the distance filter `if (dis <= rad) { PAIR_INFO pi;`")
     c["keep_text"] = keep[0]
     c["keep"] = emit(parse_expr(keep[0]), "Z", envz)
-    dcall = re.findall(r"double\s+dis\s*=\s*([^;]+);", mbody)
-    _need([" ".join(x.split()) for x in dcall] == ["gcirc(ra, dec, tra, tdec, true)"], "double dis = gcirc(ra, dec, tra, tdec, true), found %r" % dcall)
-    _need(len(re.findall(r"pi\.i1\s*=\s*i_input\s*;\s*pi\.i2\s*=\s*i_this\s*;\s*pi\.d12\s*=\s*dis\s*;\s*pair_info\.push_back\(pi\)", mbody)) == 1,
-          "pi.i1 = i_input; pi.i2 = i_this; pi.d12 = dis; pair_info.push_back(pi)")
+    dcall = re.findall(r"double\s+dis\s*=\s*gcirc\s*\(([^;()]*)\)\s*;", mbody)
+    _need(len(dcall) == 1, "double dis = gcirc(...)")
+    dargs = [x.strip() for x in dcall[0].split(",")]
+    _need(len(dargs) == 5 and all(re.fullmatch(r"\w+", x) for x in dargs) and dargs[4] in ("true", "false"),
+          "arguments of gcirc: %r" % dargs)
+    c["dis_args"], c["dis_degrees"] = dargs[:4], dargs[4]
+    # the coordinates handed to gcirc are the input point and the stored point
+    for name, arr, idx in (("ra", "ra_array", "i_input"), ("dec", "dec_array", "i_input"), ("tra", "this->ra", "i_this"), ("tdec", "this->dec", "i_this")):
+        _need(len(re.findall(r"double\s+%s\s*=\s*\*\s*\(double\s*\*\)\s*PyArray_GETPTR1\(\s*\(PyArrayObject\s*\*\)\s*%s\s*,\s*%s\s*\)" % (
+            name, re.escape(arr), idx), mbody)) == 1, "double %s = element %s of %s" % (name, idx, arr))
+    m = re.search(r"PAIR_INFO\s+pi\s*;((?:\s*pi\.\w+\s*=\s*\w+\s*;)+)\s*pair_info\.push_back\(pi\)", mbody)
+    _need(m is not None, "PAIR_INFO pi; pi.<field> = <name>; ... pair_info.push_back(pi)")
+    asg = re.findall(r"pi\.(\w+)\s*=\s*(\w+)\s*;", m.group(1))
+    _need(sorted(f for f, _ in asg) == ["d12", "i1", "i2"], "fields assigned to the PAIR_INFO: %r" % asg)
+    rowenv = {"i_input": "i_input", "i_this": "i_this", "dis": "dis"}
+    _need(all(v in rowenv for _, v in asg), "values assigned to the PAIR_INFO: %r" % asg)
+    c["row"] = dict(asg)
     m = re.search(r"npy_intp\s+nkeep\s*=\s*pair_info\.size\(\)\s*;\s*if\s*\(\s*(nkeep\s*[<>=!]+\s*\w+)\s*\)\s*\{\s*"
                   r"std::sort\(\s*pair_info\.begin\(\)\s*,\s*pair_info\.end\(\)\s*,\s*PAIR_INFO_ORDERING\(\)\s*\)\s*;", mbody)
     _need(m is not None, "nkeep = pair_info.size(); if (nkeep > 0) { std::sort(pair_info.begin(), pair_info.end(), PAIR_INFO_ORDERING());")
@@ -466,14 +479,21 @@ def extract_c(cc, hh):
     c["rad_each"], c["rad_each_index"] = emit(parse_expr(rs[1][0]), "Z", envz), emit(parse_expr(rs[1][1]), "Z", envz)
     _need(mbody.index(rs[0][0]) < mbody.index("for") < mbody.index(rs[1][0]), "position of the radius selections")
     # fprintf format and its arguments
-    f = re.findall(r'fprintf\(\s*fptr\s*,\s*"((?:[^"\\]|\\.)*)"\s*,\s*pair_info\[ci\]\.i1\s*,\s*pair_info\[ci\]\.i2\s*,\s*pair_info\[ci\]\.d12\s*\)', mbody)
-    _need(len(f) == 1, "fprintf(fptr, FORMAT, pair_info[ci].i1, pair_info[ci].i2, pair_info[ci].d12)")
-    c["format"] = f[0]
-    _need(len(re.findall(r"m1\.push_back\(pair_info\[ci\]\.i1\)\s*;\s*m2\.push_back\(pair_info\[ci\]\.i2\)\s*;\s*d12\.push_back\(pair_info\[ci\]\.d12\)", mbody)) == 1,
-          "m1.push_back(pair_info[ci].i1); m2.push_back(pair_info[ci].i2); d12.push_back(pair_info[ci].d12)")
-    # idlist = flist then plist
-    _need(re.search(r"idlist\[idcount\]\s*=\s*flist\(i\)\s*;.*idlist\[idcount\]\s*=\s*plist\(i\)\s*;", mbody, re.S) is not None,
-          "idlist filled from flist then plist")
+    f = re.findall(r'fprintf\(\s*fptr\s*,\s*"((?:[^"\\]|\\.)*)"\s*,\s*pair_info\[ci\]\.(\w+)\s*,\s*pair_info\[ci\]\.(\w+)\s*,\s*pair_info\[ci\]\.(\w+)\s*\)', mbody)
+    _need(len(f) == 1, "fprintf(fptr, FORMAT, pair_info[ci].<f>, pair_info[ci].<f>, pair_info[ci].<f>)")
+    c["format"] = f[0][0]
+    c["file_columns"] = list(f[0][1:])
+    mc = re.findall(r"(\w+)\.push_back\(pair_info\[ci\]\.(\w+)\)\s*;", mbody)
+    _need(len(mc) == 3, "three <vector>.push_back(pair_info[ci].<field>)")
+    c["memory_columns"] = mc
+    outs = re.findall(r"\*\s*(\w+)ptr\s*=\s*(\w+)\[i\]\s*;", mbody)
+    _need(sorted(outs) == [("d12", "d12"), ("m1", "m1"), ("m2", "m2")], "copy-out *m1ptr = m1[i]; *m2ptr = m2[i]; *d12ptr = d12[i]: %r" % outs)
+    tup = re.findall(r"PyTuple_SetItem\(\s*output_tuple\s*,\s*(\d)\s*,\s*(\w+)out\s*\)", mbody)
+    _need(tup == [("0", "m1"), ("1", "m2"), ("2", "d12")], "output tuple (m1, m2, d12): %r" % tup)
+    # idlist: which list is copied first
+    fills = re.findall(r"idlist\[idcount\]\s*=\s*(\w+)\(i\)\s*;", mbody)
+    _need(sorted(fills) == ["flist", "plist"], "idlist filled from flist and plist: %r" % fills)
+    c["idlist_order"] = fills
     # --- loops
     hbody = body_after(cc, r"\bvoid\s+Matcher::init_hmap\s*\(\s*void\s*\)\s*\{", "Matcher::init_hmap")
     loops = []
@@ -545,23 +565,67 @@ def py_test(n, params):
     return tbl[op] % (a, b)
 
 
+ERRCLASS = {"ValueError": "EValue", "IndexError": "EIndex", "RuntimeError": "ERuntime", "TypeError": "EType", "KeyError": "EKey"}
+
+
 def value_error_tests(fn, params):
-    """tests of the top-level `if T: raise ValueError(...)` statements of a function, in order, or-ed"""
-    tests = []
+    """tests of the top-level `if T: raise E(...)` statements of a function, in order, or-ed, and the
+    class E they raise (one class per function), translated to the model's error enum"""
+    tests, classes = [], set()
     for st in fn.body:
         if isinstance(st, ast.If) and len(st.body) >= 1 and isinstance(st.body[-1], ast.Raise):
             r = st.body[-1].exc
             name = r.func.id if isinstance(r, ast.Call) and isinstance(r.func, ast.Name) else None
-            if name == "ValueError":
-                _need(not st.orelse, "else branch of a size check")
-                tests.append(py_test(st.test, params))
-            else:
-                _need(name == "RuntimeError", "raise of %s" % name)
+            _need(name in ERRCLASS, "raise of %s in %s" % (name, fn.name))
+            _need(not st.orelse and len(st.body) <= 2, "shape of a size check in %s" % fn.name)
+            tests.append(py_test(st.test, params))
+            classes.add(ERRCLASS[name])
     _need(tests, "no size check found in %s" % fn.name)
+    _need(len(classes) == 1, "size checks of %s raise different classes: %s" % (fn.name, sorted(classes)))
     out = tests[0]
     for t in tests[1:]:
         out = "(%s || %s)%%bool" % (out, t)
-    return out, len(tests)
+    return out, classes.pop()
+
+
+def defaults_of(fn):
+    """keyword name -> default value node of a function definition"""
+    a = fn.args
+    names = [x.arg for x in a.args]
+    d = dict(zip(names[len(names) - len(a.defaults):], a.defaults))
+    for k, v in zip(a.kwonlyargs, a.kw_defaults):
+        if v is not None:
+            d[k.arg] = v
+    return d
+
+
+def default_int(fn, name):
+    d = defaults_of(fn)
+    _need(name in d and isinstance(d[name], (ast.Constant, ast.UnaryOp)), "%s: default of %s" % (fn.name, name))
+    try:
+        v = ast.literal_eval(d[name])
+    except Exception:
+        raise TranslateError("%s: default of %s is not a literal" % (fn.name, name))
+    _need(isinstance(v, int) and not isinstance(v, bool), "%s: default of %s is not an integer" % (fn.name, name))
+    return v
+
+
+def default_is_none(fn, name):
+    d = defaults_of(fn)
+    _need(name in d, "%s: default of %s" % (fn.name, name))
+    return isinstance(d[name], ast.Constant) and d[name].value is None
+
+
+def call_shape(call):
+    """(positional argument names, [(keyword, value name)]) of a call whose arguments are plain names"""
+    pos, kws = [], []
+    for x in call.args:
+        _need(isinstance(x, ast.Name), "call argument is not a plain name")
+        pos.append(x.id)
+    for k in call.keywords:
+        _need(k.arg is not None and isinstance(k.value, ast.Name), "keyword argument is not a plain name")
+        kws.append((k.arg, k.value.id))
+    return pos, kws
 
 
 def normalised_args(fn, names):
@@ -600,9 +664,25 @@ def extract_py(text):
     normalised_args(mi, ["ra", "dec"])
     normalised_args(mm, ["ra", "dec", "radius"])
     normalised_args(hm, ["ra1", "dec1", "ra2", "dec2", "radius"])
-    p["init_rejects"], _ = value_error_tests(mi, ["ra_size", "dec_size"])
-    p["match_rejects"], _ = value_error_tests(mm, ["ra_size", "dec_size", "radius_size"])
-    p["htm_rejects"], _ = value_error_tests(hm, ["ra1_size", "dec1_size", "ra2_size", "dec2_size", "radius_size"])
+    p["init_rejects"], p["init_error"] = value_error_tests(mi, ["ra_size", "dec_size"])
+    p["match_rejects"], p["match_error"] = value_error_tests(mm, ["ra_size", "dec_size", "radius_size"])
+    p["htm_rejects"], p["htm_error"] = value_error_tests(hm, ["ra1_size", "dec1_size", "ra2_size", "dec2_size", "radius_size"])
+    # defaults of the optional arguments
+    p["match_default_maxmatch"] = default_int(mm, "maxmatch")
+    p["htm_default_maxmatch"] = default_int(hm, "maxmatch")
+    p["match_default_file_none"] = default_is_none(mm, "file")
+    p["htm_default_file_none"] = default_is_none(hm, "file")
+    # the delegations, argument by argument
+    calls = [n for n in ast.walk(hm) if isinstance(n, ast.Call)]
+    ctor = [n for n in calls if isinstance(n.func, ast.Name) and n.func.id == "Matcher"]
+    mcall = [n for n in calls if isinstance(n.func, ast.Attribute) and n.func.attr == "match"
+             and isinstance(n.func.value, ast.Name) and n.func.value.id == "matcher"]
+    _need(len(ctor) == 1 and len(mcall) == 1, "HTM.match: one Matcher(...) and one matcher.match(...)")
+    p["htm_builds"] = call_shape(ctor[0])
+    p["htm_calls"] = call_shape(mcall[0])
+    sup = [n for n in ast.walk(mm) if isinstance(n, ast.Call) and isinstance(n.func, ast.Attribute) and n.func.attr == "match"]
+    _need(len(sup) == 1, "Matcher.match: one super().match(...)")
+    p["matcher_calls"] = call_shape(sup[0])
     # HTM.match delegates to Matcher(depth, ra2, dec2).match(ra1, dec1, radius, maxmatch=maxmatch, file=filename)
     seg = ast.get_source_segment(text, hm) or ""
     _need(re.search(r"matcher\s*=\s*Matcher\(\s*depth\s*,\s*ra2\s*,\s*dec2\s*\)", seg) is not None, "HTM.match: Matcher(depth, ra2, dec2)")
@@ -677,8 +757,13 @@ HDR = ("(* GENERATED by harness/props/c12_translate.py from esutil/htm/htmc.cc, 
 
 
 def gen_text(c, p):
+    def slist(xs):
+        return "[" + "; ".join(cstring(x) for x in xs) + "]"
+
+    def plist(xs):
+        return "[" + "; ".join("(%s, %s)" % (cstring(a), cstring(b)) for a, b in xs) + "]"
     L = [HDR % "C12/TieProofs.v",
-         "From Coq Require Import ZArith Bool String List.\nImport ListNotations.\nOpen Scope Z_scope.\nOpen Scope string_scope.\n",
+         "From Coq Require Import ZArith Bool String List.\nFrom EsVerif.Common Require Import Base.\nImport ListNotations.\nOpen Scope Z_scope.\nOpen Scope string_scope.\n",
          "(* ---- htmc.cc, Matcher::match *)",
          "(* if (%s) { PAIR_INFO pi; ... pair_info.push_back(pi); } *)" % c["keep_text"],
          "Definition src_keep (dis rad : Z) : bool := %s." % c["keep"],
@@ -701,12 +786,34 @@ def gen_text(c, p):
         L.append("Definition src_loop_%s_test (v b : Z) : bool := %s." % (name, cnd))
     L.append("Definition src_loops : list (Z * (Z -> Z -> bool)) :=\n  [%s]." % ";\n   ".join(
         "(src_loop_%s_start, src_loop_%s_test)" % (n, n) for n, _, _, _ in c["loops"]))
+    L += ["(* double dis = gcirc(%s, %s): the arguments and the degrees flag *)" % (", ".join(c["dis_args"]), c["dis_degrees"]),
+          "Definition src_dis_call : list string * bool := (%s, %s)." % (slist(c["dis_args"]), c["dis_degrees"]),
+          "(* PAIR_INFO pi; %s pair_info.push_back(pi): one candidate row *)" % " ".join("pi.%s = %s;" % (f_, v) for f_, v in sorted(c["row"].items())),
+          "Definition src_row (i_input i_this : nat) (dis : Z) : nat * nat * Z := (%s, %s, %s)." % (c["row"]["i1"], c["row"]["i2"], c["row"]["d12"]),
+          "(* the columns of a file row, and which result vector receives which field (returned as (m1, m2, d12)) *)",
+          "Definition src_file_columns : list string := %s." % slist(c["file_columns"]),
+          "Definition src_memory_columns : list (string * string) := %s." % plist(c["memory_columns"]),
+          "(* idlist is filled from these lists, in this order *)",
+          "Definition src_idlist_order : list string := %s." % slist(c["idlist_order"])]
     L += ["", "(* ---- htmc.h, PAIR_INFO_ORDERING: return %s; *)" % c["before_text"],
           "Definition src_before (d1 d2 : Z) : bool := %s." % c["before"],
           "", "(* ---- htm.py: the tests that raise ValueError *)",
           "Definition src_matcher_init_rejects (ra_size dec_size : Z) : bool := %s." % p["init_rejects"],
           "Definition src_matcher_match_rejects (ra_size dec_size radius_size : Z) : bool := %s." % p["match_rejects"],
           "Definition src_htm_match_rejects (ra1_size dec1_size ra2_size dec2_size radius_size : Z) : bool := %s." % p["htm_rejects"],
+          "(* the exception class of those tests *)",
+          "Definition src_matcher_init_error : err := %s." % p["init_error"],
+          "Definition src_matcher_match_error : err := %s." % p["match_error"],
+          "Definition src_htm_match_error : err := %s." % p["htm_error"],
+          "(* defaults of the optional arguments: maxmatch=, file= *)",
+          "Definition src_matcher_match_default_maxmatch : Z := %s." % cfrac(Fraction(p["match_default_maxmatch"]), "Z").replace("-", "- ") ,
+          "Definition src_htm_match_default_maxmatch : Z := %s." % cfrac(Fraction(p["htm_default_maxmatch"]), "Z").replace("-", "- "),
+          "Definition src_default_file_is_none : bool * bool := (%s, %s)." % (str(p["match_default_file_none"]).lower(), str(p["htm_default_file_none"]).lower()),
+          "(* HTM.match: Matcher(%s).match(%s); Matcher.match: super().match(%s) *)" % (
+              ", ".join(p["htm_builds"][0]), ", ".join(p["htm_calls"][0] + ["%s=%s" % kv for kv in p["htm_calls"][1]]), ", ".join(p["matcher_calls"][0])),
+          "Definition src_htm_builds : list string * list (string * string) := (%s, %s)." % (slist(p["htm_builds"][0]), plist(p["htm_builds"][1])),
+          "Definition src_htm_calls : list string * list (string * string) := (%s, %s)." % (slist(p["htm_calls"][0]), plist(p["htm_calls"][1])),
+          "Definition src_matcher_calls : list string * list (string * string) := (%s, %s)." % (slist(p["matcher_calls"][0]), plist(p["matcher_calls"][1])),
           "(* read_pairs: Recfile(filename, \"r\", dtype=dtype, delim=...) *)",
           "Definition src_pair_dtype : list (string * string) := [%s]." % "; ".join("(%s, %s)" % (cstring(a), cstring(b)) for a, b in p["dtype"]),
           "Definition src_pair_delim : string := %s." % cstring(p["delim"]),
